@@ -11,10 +11,10 @@ cd "$wt"
 cxx=gcc; case "$demo" in *.cpp) cxx="g++ -std=gnu++17";; esac
 build_demo() { # $1 = output
   if grep -q 'src/static.c"' "$demo"; then
-    sed "s#/tmp/wt2\?/C[0-9]*/#$wt/#g" "$demo" > "$wt/_demo_src.${demo##*.}"
+    sed "s#/tmp/wt[0-9]\?/C[0-9]*/#$wt/#g" "$demo" > "$wt/_demo_src.${demo##*.}"
     $cxx $flags -I"$wt/include" "$wt/_demo_src.${demo##*.}" -o "$1" -lpthread -ldl 2>&1 | tail -3
   else
-    sed "s#/tmp/wt2\?/C[0-9]*/#$wt/#g" "$demo" > "$wt/_demo_src.${demo##*.}"
+    sed "s#/tmp/wt[0-9]\?/C[0-9]*/#$wt/#g" "$demo" > "$wt/_demo_src.${demo##*.}"
     gcc $flags -I"$wt/include" -c "$wt/src/static.c" -o "$wt/_mi.o" 2>&1 | tail -3
     $cxx $flags -I"$wt/include" "$wt/_demo_src.${demo##*.}" "$wt/_mi.o" -o "$1" -lpthread -ldl 2>&1 | tail -3
   fi
